@@ -2,6 +2,8 @@ PROP = {
     "regen_files": ["GenGuards.v", "GenSigs.v"],
     "num": 11,
     "runs": [
+        # caller program compiled separately: a 65536 x 65536 grid of zero-sized elements regrouped by reference
+        {"tag": "c11huge", "bin": "gcall", "no_default_features": True, "args": ["--prop", "C11"], "model": False, "timeout": 240},
         # the same caller program as c12call: boxed nested arrays flattened / unflattened with method syntax (zero-sized rows too)
         {"tag": "c11call", "bin": "gcall", "no_default_features": True, "args": ["--prop", "C12"], "model": False},{"tag": "c11", "bin": "c11"},
              # optimised build of the same cases: no debug assertions, no overflow checks, inlined unsafe paths
